@@ -166,6 +166,27 @@ def mc_tests(ctx, w, label, convert_kw=None, limit=None, **kw):
     return tests
 
 
+def sim_tests(ctx, w, label, num, procs=8, convert_kw=None, **kw):
+    """Long histories from random walks of the design model (tlc -simulate, several seeds in parallel)."""
+    from concurrent.futures import ThreadPoolExecutor
+    binp = vlib.build()
+    uni = gen.universe(binp)
+    per = max(1, num // procs)
+
+    def one(i):
+        return gen.mc_simulate(w.sub("sim-%s-%d" % (label, i)), num=per, depth=8 * kw.get("maxops", 10), seed=ctx.seed * 100 + i + 1, **kw)
+    res = list(ThreadPoolExecutor(procs).map(one, range(procs)))
+    hists = [h for hs, _ in res for h in hs]
+    log("  [%s] %d random walks of the design model (tlc -simulate, %d seeds), up to %d calls each" % (label, len(hists), procs, kw.get("maxops", 10)))
+    tests = []
+    for i, h in enumerate(hists):
+        t = gen.convert(uni, h, i + 7 * ctx.seed, **(convert_kw or {}))
+        t["id"] = "%s%d" % (label, i)
+        tests.append(t)
+    ctx.extra_cov["simulated_walks"] = ctx.extra_cov.get("simulated_walks", 0) + len(hists)
+    return tests
+
+
 def rnd_tests(ctx, n, label="rnd", **kw):
     binp = vlib.build()
     uni = gen.universe(binp)
@@ -186,6 +207,7 @@ def check_C01(ctx, w):
     tests = mc_tests(ctx, w, "mc", slots=2, kvals=2, avals=2, maxbatch=2, maxops=ctx.q(3, 4), bfilter=ctx.q("PairBatch", "ValidABatch"),
                      limit=ctx.q(4000, 60000))
     tests += rnd_tests(ctx, ctx.q(150, 3000), nops=ctx.q(30, 50))
+    tests += sim_tests(ctx, w, "sim", ctx.q(64, 1600), slots=3, kvals=3, avals=2, maxbatch=2, maxops=ctx.q(8, 12), bfilter="PairBatch", get=True)
     seq_pipeline(ctx, w, tests, ["Conf_C01"])
 
 
@@ -259,6 +281,7 @@ def check_C04(ctx, w):
     ctx.rule = "close+reopen (with and without Create) and, in synchronous mode, abandonment at every position of every history of the bounded model, full sweep before and after; random histories over the extreme-value palettes (2^53 neighbours, MaxInt64, nanosecond timestamps)"
     tests = mc_tests(ctx, w, "mc", slots=2, kvals=2, avals=2, maxbatch=2, maxops=ctx.q(3, 4), bfilter="PairBatch", get=False, limit=ctx.q(3000, 50000))
     tests += rnd_tests(ctx, ctx.q(200, 3000), nops=ctx.q(25, 50), p_reopen=0.2, abandon=True)
+    tests += sim_tests(ctx, w, "sim", ctx.q(64, 1600), slots=3, kvals=3, avals=2, maxbatch=1, maxops=ctx.q(8, 12), bfilter="NoBatch", get=False)
     seq_pipeline(ctx, w, tests, ["Conf_C04"])
 
 
